@@ -184,7 +184,44 @@ def run_c17(ctx):
                 break
     responder_send_failures(ctx)
     shared_queue(ctx)
+    totals_survive_publication_ticks(ctx)
     proof_verdict(ctx)
+
+
+def totals_survive_publication_ticks(ctx):
+    """aggregated statistics (the default) are cumulative: the periodic hand-off of per-client records
+    (every tenth of the status interval) has nothing to hand off and must not lose what was counted.
+    An in-process server with a 2 s status interval (tick every 200 ms) serves a round, idles for
+    0.7 s of event-loop passes, serves another round; the recorder's totals must equal the traffic."""
+    r = ctx.rng
+    seed = "%064x" % r.getrandbits(256)
+    def classic():
+        return rt.hx(rt.mk_classic(bytes(r.getrandbits(8) for _ in range(64))))
+    def ietf():
+        return rt.hx(rt.mk_ietf(bytes(r.getrandbits(8) for _ in range(32)), 1024))
+    junk = rt.hx(bytes(1024))
+    lines = ["serve new 64 0 3 0 %s 0 2000" % seed,
+             "serve run 3 0:%s;1:%s;2:%s;0:%s" % (classic(), ietf(), junk, classic()),
+             "serve idle 700",
+             "serve run 2 0:%s;1:%s" % (ietf(), junk),
+             "serve idle 400",
+             "serve stats"]
+    out = vlib.run_sessions(vlib.HARNESS, [lines], "c17ticks")[0]
+    ctx.evaluations += 1
+    rep = {"cmd": "serve", "lines": lines, "impl": [o[:300] for o in out]}
+    want = [None, dict(rfc=1, classic=2, invalid=1, resp=3), dict(rfc=1, classic=2, invalid=1, resp=3),
+            dict(rfc=2, classic=2, invalid=2, resp=4), dict(rfc=2, classic=2, invalid=2, resp=4), dict(rfc=2, classic=2, invalid=2, resp=4)]
+    for k, (o, w) in enumerate(zip(out, want)):
+        if w is None:
+            continue
+        st = srvmod.parse_run(o)["stats"]
+        got = {key: st.get(key) for key in w}
+        if got != w:
+            ctx.violation("property", "aggregated totals after step %d (%s) are %s but the traffic so far is %s: counts were lost at a statistics tick"
+                          % (k, lines[k].split(" ", 2)[1] + " " + lines[k].split(" ", 2)[2][:12], got, w), rep)
+            return
+    ctx.nontriv("ticks:aggregated")
+    ctx.traces_validated += 1
 
 
 def shared_queue(ctx):
